@@ -32,6 +32,19 @@ def anchors(a: Anchors):
     a.fact("replace_drops_unused_images", LBT, "BatchLoader.replace", "images copied; ids without molecules are popped",
            lambda fn: all(t in norm(ast.unparse(fn)) for t in ["out._images=self._images.copy()", "_id_exists=set(molecules.features[IMAGE_ID_LABEL].unique())",
                                                                "forkinlist(out._images.keys()):ifknotin_id_exists:out._images.pop(k)"]))
+    # derived / per-tomogram loaders receive every loader option (order, scale, output_shape, corner_safe)
+    from translate import forwards
+    SL_PARAMS = ["image", "molecules", "order", "scale", "output_shape", "corner_safe"]
+    opts = lambda pre: {k: (pre + k,) for k in ("order", "scale", "output_shape", "corner_safe")}
+    a.fact("accessor_forwards_options", LBT, "LoaderAccessor.__iter__", "SubtomogramLoader(image, group, ldr.order, ldr.scale, ldr.output_shape, ldr.corner_safe)",
+           lambda fn: forwards(fn, ("SubtomogramLoader",), SL_PARAMS, opts("ldr.")))
+    a.fact("accessor_getitem_forwards_options", LBT, "LoaderAccessor.__getitem__", "same for loaders[i]",
+           lambda fn: forwards(fn, ("SubtomogramLoader",), SL_PARAMS, opts("ldr.")))
+    defaults = lambda t: all(f"if{k}isNone:{k}=self.{k}" in t for k in ("output_shape", "order", "scale", "corner_safe"))
+    a.fact("single_replace_forwards_options", "acryo/loader/_loader.py", "SubtomogramLoader.replace", "self.__class__(self.image, molecules=..., every option; None -> own value)",
+           lambda fn: forwards(fn, ("self.__class__",), SL_PARAMS, dict(opts(""), image=("self.image",), molecules=("molecules",))) and defaults(norm(ast.unparse(fn))))
+    a.fact("batch_replace_forwards_options", LBT, "BatchLoader.replace", "self.__class__(order=..., scale=..., output_shape=..., corner_safe=...); None -> own value",
+           lambda fn: forwards(fn, ("self.__class__",), ["order", "scale", "output_shape", "corner_safe"], opts("")) and defaults(norm(ast.unparse(fn))))
     a.fact("mapping_tasks_zip_rows", LB, "LoaderBase.iter_mapping_tasks", "zip(dask_array, dict_iterrows(var_kwarg))",
            lambda fn: "forar,kwinzip(dask_array,_misc.dict_iterrows(var_kwarg))" in norm(ast.unparse(fn))
            and "dask_array=self.construct_loading_tasks(output_shape=output_shape)" in norm(ast.unparse(fn)))
